@@ -166,6 +166,15 @@ CHECKS = {
         "exhaustive": {"quick": False, "thorough": False},
         "trusted_base": ["reference decoder, checksum, path reversal and SCMP layout table in harness/refscion/src/wire.rs"],
     },
+    "C20": {
+        "engines": [
+            eng("native-release", "chk-stack", NATIVE_REL, params={"all": {"scale": 2}}),
+            eng("native-debugassert", "chk-stack", NATIVE_CHK, params={"all": {"scale": 1}}),
+            eng("tsan", "chk-stack", {"kind": "tsan"}, tiers=["thorough"], params={"thorough": {"scale": 1}}, floor_scale=0.02, timeout=5400),
+        ],
+        "exhaustive": {"quick": False, "thorough": False},
+        "trusted_base": ["tokio's scheduler as the source of interleavings", "ThreadSanitizer (thorough tier) for data races in the exercised code"],
+    },
 }
 
 LEVEL = {p: "exploration" for p in CHECKS}
